@@ -186,8 +186,10 @@ func Decrypt(suite Suite, ciphertext []byte, anonymitySet Set, mine int, private
 	msg := make([]byte, len(ctx))
 	xof.XORKeyStream(msg, ctx)
 	xof = suite.XOF(ctx)
-	xof.XORKeyStream(mac, mac)
-	if constantTimeAllEq(mac, 0) == 0 {
+	// compare in a scratch buffer: mac is a slice of the caller's ciphertext
+	check := make([]byte, len(mac))
+	xof.XORKeyStream(check, mac)
+	if constantTimeAllEq(check, 0) == 0 {
 		return nil, errors.New("invalid ciphertext: failed MAC check")
 	}
 	return msg, nil
